@@ -10,7 +10,7 @@ run_one() {
   mkdir -p /tmp/sweep/$n
   # a private copy of /verif so that evidence / replays of concurrent runs do not collide
   rsync -a --exclude .git --exclude replays --exclude evidence /verif/ /tmp/sweep/$n/verif/
-  (cd /tmp/sweep/$n/verif && PYVC_REPO=/tmp/mut_$n ./check $p --tier $TIER > /tmp/sweep/$n/log 2>&1; echo $? > /tmp/sweep/$n/rc)
+  (cd /tmp/sweep/$n/verif && PYVC_REPO=/tmp/mut_$n ./check $p --tier $TIER $SWEEP_ARGS > /tmp/sweep/$n/log 2>&1; echo $? > /tmp/sweep/$n/rc)
   echo "$n rc=$(cat /tmp/sweep/$n/rc) $(grep -m1 -E '^VIOLATION|^UNDECIDED|^CHECKER' /tmp/sweep/$n/log | cut -c1-170)"
   rm -rf /tmp/sweep/$n/verif /tmp/mut_$n
 }
